@@ -484,6 +484,27 @@ def yaml_stream_worlds():
     return ws
 
 
+def unencodable_worlds():
+    """a placeholder the encoder rejects on a path that EXISTS: the value is not replaced, so an error is reported -
+    also by a matcher that tolerates MISSING paths (ErrOnMissingPath(false) forgives absence, nothing else)"""
+    ws = []
+    for n, (kind, doc, path) in enumerate([('json', '{"session": "s3cr3t", "n": 1}', 'session'), ('json', '{"a": {"b": [1, 2]}}', 'a.b'),
+                                          ('yaml', 'session: s3cr3t\nn: 1\n', '$.session')]):
+        for eom in (True, False):
+            w = World('c15un-%d-%d' % (n, eom))
+
+            def oracle(line, raw, ww, doc=doc):
+                if not raw.startswith('mdoc '):
+                    return 'the matcher did not return (%s)' % raw[:120]
+                f = dict(x.split(':', 1) for x in raw.split(' ')[1].split('|'))
+                if not [e for e in f['errs'].split('+') if e]:
+                    return 'the value at an existing path was not replaced (the placeholder cannot be encoded) and no error was reported; output %r' % bytes.fromhex(f['out'])[:80]
+                return None
+            w.add('mdoc %s %s %s' % (kind, hx(doc), docs.any_matcher([path], '"@unencodable"', eom)), ('unreplaced-value-is-reported', oracle))
+            ws.append(w)
+    return ws
+
+
 def run(ctx):
     jsonlens.run_json_lens(ctx)
     g = Gen(ctx.seed * 1000003 + 15)
@@ -493,6 +514,7 @@ def run(ctx):
     worlds += [yaml_world(g, 'c15y-%d' % i) for i in range(n // 2)]
     worlds += yaml_fixed_worlds()
     worlds += yaml_stream_worlds()
+    worlds += unencodable_worlds()
     run_suite(ctx, 'matchers.direct', worlds, known=known, use_model=False, chunk=1000)
     worlds = [entry_world(g, 'c15e-%d' % i) for i in range(n // 2)]
     run_suite(ctx, 'matchers.entrypoints', worlds, known=known, chunk=500)
